@@ -7,6 +7,8 @@ use crate::{
     },
 };
 
+use super::shift::carry_skip_empty_limbs;
+
 #[cfg(test)]
 use crate::{layouts::FillUniform, source::Source};
 
@@ -113,6 +115,9 @@ fn vec_znx_normalize_inter_base2k<R, A, ZNXARI>(
     if a_out_range == 0 {
         ZNXARI::znx_zero(carry);
     }
+
+    // Negative offset larger than the precision of res: the carry first crosses the limbs below the last one of res
+    carry_skip_empty_limbs(base2k, ((-limbs_offset).max(0) as usize).saturating_sub(res_size), carry);
 
     // Zeroes bottom limbs that will not be interacted with
     for j in res_start..res_size {
